@@ -1,6 +1,7 @@
 From PV Require Import C19.Spec.
 
 Lemma empty_tree fahr :
-  sensors_temperatures [] [] fahr = Val [] /\ sensors_fans false [] = Val []
-  /\ sensors_battery false (Some []) FAbsent FAbsent = Val None.
+  sensors_temperatures [] [] fahr = Val [] /\ sensors_fans true [] = Val []
+  /\ sensors_battery true (Some []) FAbsent FAbsent = Val None /\ sensors_battery true None FAbsent FAbsent = Val None
+  /\ cpu_freq_mean [] = None.
 Proof. repeat split. Qed.
